@@ -802,7 +802,7 @@ fn gen_base(r: &mut Rng) -> Base {
     if r.chance(2, 3) {
         name.labels.insert(0, r.pick(&[&b"www"[..], b"Mail", b"a", b"_sip"]).to_vec());
     }
-    let ty = *r.pick(&[1u16, 1, 2, 15, 16, 28, 33, 5, 6, 43, 52, 47]);
+    let ty = *r.pick(&[1u16, 1, 2, 15, 16, 28, 33, 5, 6, 43, 52, 47, 48]);
     let pool = c05::name_pool(r);
     let n = if ty == 5 || ty == 6 { 1 } else { r.range(1, 3) as usize };
     let ttl = *r.pick(&[0u32, 30, 300, 3600, 86400]);
@@ -1224,6 +1224,21 @@ fn gen_history(r: &mut Rng, kind: u64) -> Option<Vec<String>> {
             }
             lines.push(h_line(t0, 0, &ks, &b.s, &b.name, b.ty, &b.recs)?);
         }
+        7 => {
+            // NSEC RRset whose RRSIG claims wildcard expansion (Labels below the owner's label count):
+            // correctly signed, still refused by verify_rrsig_with_keys; Labels equal: accepted
+            b.ty = 47;
+            b.s.tc = 47;
+            let mut raw = c05::wire(&c05::nm("z.example.com.").labels);
+            raw.extend([0u8, 1, 0x40]);
+            b.recs = vec![Rec { name: b.name.clone(), rtype: 47, cls: 1, ttl, rd: RD::Op(raw) }];
+            let full = b.s.labels;
+            for labels in [full.saturating_sub(1), full] {
+                b.s.labels = labels;
+                resign(&mut b);
+                lines.push(h_line(t0, 0, &keys, &b.s, &b.name, b.ty, &b.recs)?);
+            }
+        }
         _ => {
             // wrong key first (Bogus is cached), then the right key; and the reverse
             resign(&mut b);
@@ -1368,9 +1383,9 @@ pub fn run(o: &Opts, rec: &mut Recorder) {
     }
     for i in 0..o.n(250, 20_000) {
         let mut rr = r.fork();
-        match catch(move || gen_history(&mut rr, i as u64 % 7)) {
+        match catch(move || gen_history(&mut rr, i as u64 % 8)) {
             Ok(Some(h)) => {
-                rec.stat(&format!("history.kind.{}", i % 7));
+                rec.stat(&format!("history.kind.{}", i % 8));
                 for l in h {
                     exec(&l, rec);
                 }
